@@ -220,6 +220,19 @@ def run(ctx):
             if dec != ls:
                 t.failed("decode(encode(lines)) != lines", lines=ls, encoded=enc, decoded=dec)
                 break
+            # the string wrappers are the same codec on '\n'-joined text (and None stays None)
+            try:
+                joined = "\n".join(ls)
+                enc_s = real.format_multiline(joined)
+                dec_s = real.parse_multiline(enc_s)
+                none_ok = real.format_multiline(None) is None and real.parse_multiline(None) is None
+            except Exception as e:
+                t.failed("the string wrappers of the codec raised %r" % (e,), lines=ls)
+                break
+            if joined.splitlines() == ls and (enc_s != enc or dec_s != joined or not none_ok):
+                t.failed("format_multiline / parse_multiline differ from the list versions", lines=ls, encoded=enc_s, decoded=dec_s,
+                         list_version_encoded=enc)
+                break
             # the decoded list is the caller's: changing it does not change what the same text decodes to next time
             try:
                 dec.append("changed by the caller")
@@ -296,6 +309,11 @@ def run(ctx):
                 elif isinstance(p, real.LicenseParagraph):
                     got.append(("license", (p.license.synopsis, p.license.text)))
             text2 = cp2.dump()
+            # dumping into a text file object writes the same text as dump() returns
+            import io as _io
+            _f = _io.StringIO()
+            if cp.dump(_f) is not None or _f.getvalue() != text:
+                raise AssertionError("dump(f) wrote %r, dump() returns %r" % (_f.getvalue(), text))
         except Exception as e:
             t.failed("dump / strict re-parse raised %r" % (e,), model=repr(model))
             break
